@@ -407,6 +407,21 @@ func oracleStep(ks *keyState, phases []int, errs []int, rans []int, after Obs, f
 	if anyRanOK != (nd > 0) && len(errs) == 1 {
 		return fmt.Sprintf("callback executed and delivery succeeded = %v, but committed effect delta = %d", anyRanOK, nd)
 	}
+	// a delivery that reports success is recorded: the coordinator will not deliver it again.  Committed,
+	// rollbacked and suspended are final, so this also holds for a pair of racing deliveries.
+	for i, p := range phases {
+		if errs[i] != 0 {
+			continue
+		}
+		switch {
+		case p == 1 && (after.Status == 0 || after.Status == 4):
+			return fmt.Sprintf("prepare reported success but the branch has no tried record (status %d)", after.Status)
+		case p == 2 && after.Status != 2:
+			return fmt.Sprintf("commit reported success but the branch is not committed (status %d): confirm is lost", after.Status)
+		case p == 3 && after.Status != 3 && after.Status != 4:
+			return fmt.Sprintf("rollback reported success but the branch is neither rollbacked nor suspended (status %d): the coordinator will not retry, cancel is lost and a late try is not fenced", after.Status)
+		}
+	}
 	if before.suspend {
 		if after.Status != 4 || nd != 0 {
 			return "a branch suspended by an early rollback changed afterwards (late try not refused)"
